@@ -20,7 +20,7 @@ ID = "C17"
 RULE = (
     "Hypothesis-generated NewRecordBatch values: 1-8 records; first offset anywhere in int64, other offsets = first + "
     "int32 delta in any order; whole-millisecond timestamps anywhere in [epoch, 9999-12-31] in any order, in several fixed UTC "
-    "offsets and named DST zones (shared tzinfo objects); key/value null/empty/small/one >=16 KiB; 0-3 headers (1 record in 40: 63-130) with null/empty/non-empty key and value; record and "
+    "offsets and named DST zones (shared tzinfo objects; 1 batch in 12 lies in the repeated hour at the end of daylight saving time, first record fold=0, the others fold=1 with the same or an earlier wall-clock time); key/value null/empty/small/one >=16 KiB; 0-3 headers (1 record in 40: 63-130) with null/empty/non-empty key and value; record and "
     "batch attributes, producer id/epoch, base sequence, partition leader epoch over their full ranges incl. limits. "
     "Oracle: kv.refbatch.decode_batch (independent strict v2 decoder with own varints and pure-Python CRC-32C) must "
     "parse the output completely (magic 2, batch_length == len-12, CRC over exactly bytes[21:], minimal varints, record "
@@ -31,6 +31,9 @@ RULE = (
 )
 
 _ZONES = [0, 0, 60, -300, 330, 765, "Europe/Berlin", "Europe/Berlin", "America/New_York", "Australia/Lord_Howe"]
+# (zone, UTC instant in ms at which its clocks go back, size of the step in ms)
+_FALL_BACK = [("Europe/Berlin", 1635642000000, 3600000), ("America/New_York", 1636264800000, 3600000),
+              ("Australia/Lord_Howe", 1617462000000, 1800000)]
 
 
 def _blob():
@@ -58,6 +61,15 @@ def batch_cases(draw):
     if n >= 2 and draw(st.booleans()):
         # near-identical timestamps: small deltas around the first
         ts = [ts[0]] + [min(max(ts[0] + draw(st.integers(-70000, 70000)), 0), TS_MAX_MS) for _ in range(n - 1)]
+    fold_zone = None
+    if n >= 2 and draw(st.integers(0, 11)) == 0:
+        # the repeated hour at the end of daylight saving time: all records share ONE DST-observing tzinfo; the first lies
+        # before the clocks go back (fold=0), the others after (fold=1), often with the SAME or an EARLIER wall-clock time
+        fold_zone, t_back, shift = draw(st.sampled_from(_FALL_BACK))
+        a = draw(st.integers(1, shift))
+        ts = [t_back - a]
+        for _ in range(n - 1):
+            ts.append(t_back + draw(st.one_of(st.just(shift - a), st.integers(0, shift - 1))))
     records = []
     for i in range(n):
         nh = draw(st.sampled_from([0, 0, 1, 2, 3]))
@@ -66,7 +78,7 @@ def batch_cases(draw):
         records.append({
             "attributes": draw(int_strategy(-128, 127)),
             "ts_ms": ts[i],
-            "tz": draw(st.sampled_from(_ZONES)),
+            "tz": fold_zone or draw(st.sampled_from(_ZONES)),
             "offset": first + deltas[i],
             "key": draw(_blob() if i == 0 else _small_blob()),
             "value": draw(_blob() if i == 1 else _small_blob()),
